@@ -17,6 +17,6 @@ RACE=""
 if echo "$V" | grep -q race; then
   export CGO_ENABLED=1
   rm -rf "$D.rt"; OV=$(./bin/vinstr raceoverlay "$(go1.26.8 env GOROOT)" "$D.rt") || exit 2
-  RACE="-race -overlay $OV"
+  RACE="-race -overlay $OV -gcflags=all=-d=checkptr=0"
 fi
 go1.26.8 test -c $RACE -modfile="$D.mod" -tags "verif $(echo $TAGS | tr ',' ' ')" -o "bin/$E.test" "./engines/$E"
